@@ -139,6 +139,11 @@ def main():
         add(f'{f.lower()}_inv_l2_lru', f, inv=True, limit=2, policy='lru', group='inv')
         add(f'{f.lower()}_inv_mem', f, inv=True, mem='1KB', group='inv')
         add(f'{f.lower()}_inv_cif', f, inv=True, cif=True, group='inv')
+    for f in 'GTA':
+        add(f'{f.lower()}_inv_fifo_l2', f, inv=True, limit=2, policy='fifo', group='inv')
+        add(f'{f.lower()}_inv_lru_l1', f, inv=True, limit=1, policy='lru', group='inv')
+        add(f'{f.lower()}_res_ttl1', f, ret='Result<u64, u8>', ttl=1, group='res')
+        add(f'{f.lower()}_cif_ttl1_l2', f, cif=True, ttl=1, limit=2, policy='lru', group='cif')
     # ---- invalidation metadata layouts (sync + async mixed)
     add('g_tag1', 'G', tags=['t1'], limit=2, policy='lru', group='meta')
     add('g_tag12', 'G', tags=['t1', 't2'], limit=3, group='meta')
@@ -214,6 +219,26 @@ def main():
         else: syn.append(f'        "{r["name"]}" => Some(format!("{{:?}}", {call})),')
     lines += ['pub fn call_sync(name: &str, recv: u64, a: &[u64]) -> Option<String> {', '    match name {'] + syn + ['        _ => None,', '    }', '}', '']
     lines += ['pub async fn call_async(name: &str, recv: u64, a: Vec<u64>) -> Option<String> {', '    match name {'] + asy + ['        _ => None,', '    }', '}', '']
+    # ---- typed dispatch for the key-shape subjects (arguments given as text tokens)
+    def conv(t, i):
+        t = t.strip()
+        if t in ('u8', 'u16', 'u32', 'u64', 'usize', 'i8', 'i16', 'i32', 'i64', 'isize', 'bool'): return f'a[{i}].parse::<{t}>().ok()?'
+        if t == 'String': return f'dec(&a[{i}])?'
+        if t == '&str': return f'&*Box::leak(dec(&a[{i}])?.into_boxed_str())'
+        if t == 'char': return f'dec(&a[{i}])?.chars().next()?'
+        return None
+    ksyn = []; kasy = []
+    for r in S:
+        if r['recv'] or not r['args']: continue
+        cs = [conv(t, i) for i, (a, t) in enumerate(r['args'])]
+        if any(c is None for c in cs): continue
+        call = r['name'] + '(' + ', '.join(cs) + ')'
+        if r['flavour'] == 'A': kasy.append(f'        "{r["name"]}" => Some(format!("{{:?}}", {call}.await)),')
+        else: ksyn.append(f'        "{r["name"]}" => Some(format!("{{:?}}", {call})),')
+    lines += ['fn dec(t: &str) -> Option<String> {', '    let h = t.strip_prefix("s:")?;', '    let mut b = Vec::new(); let mut it = h.split(\'%\').skip(1);',
+              '    while let Some(x) = it.next() { b.push(u8::from_str_radix(x, 16).ok()?); }', '    String::from_utf8(b).ok()', '}', '']
+    lines += ['pub fn callk_sync(name: &str, a: &[String]) -> Option<String> {', '    match name {'] + ksyn + ['        _ => None,', '    }', '}', '']
+    lines += ['pub async fn callk_async(name: &str, a: Vec<String>) -> Option<String> {', '    match name {'] + kasy + ['        _ => None,', '    }', '}', '']
     lines += ['pub fn is_async(name: &str) -> bool {', '    matches!(name, ' + ' | '.join(f'"{r["name"]}"' for r in S if r['flavour'] == 'A') + ')', '}', '']
     here = os.path.dirname(os.path.abspath(__file__))
     open(os.path.join(here, 'src', 'gen.rs'), 'w').write('\n'.join(lines))
